@@ -91,3 +91,81 @@ def ok (d : DocPattern) : Bool :=
 end DocPattern
 end Spec
 end Cors
+
+namespace Cors
+namespace Spec
+
+/-- One field of a dotted-quad IPv4 address: 1-3 digits, no leading zero, at most 255. -/
+def docOctet (f : Bytes) : Bool :=
+  !f.isEmpty && f.all isDigit && !(f.length > 1 && f.head? == some 48) && f.length ≤ 3 && portValue f ≤ 255
+
+/-- A documented pattern whose host is a dotted-quad IPv4 address (never with `https`, never with
+a `*.` prefix). -/
+structure DocV4 where
+  scheme : Bytes
+  a : Bytes
+  b : Bytes
+  c : Bytes
+  d : Bytes
+  port : DocPort
+
+namespace DocV4
+
+def host (v : DocV4) : Bytes := Bytes.join 46 [v.a, v.b, v.c, v.d]
+
+def portString (v : DocV4) : Bytes :=
+  match v.port with
+  | .absent => []
+  | .num ds => 58 :: ds
+  | .any => [58, 42]
+
+def render (v : DocV4) : Bytes := v.scheme ++ Spec.b "://" ++ v.host ++ v.portString
+
+def isDefaultPort (v : DocV4) : Bool :=
+  match v.port with
+  | .num ds => v.scheme == Spec.b "http" && portValue ds == 80
+  | _ => false
+
+def ok (v : DocV4) : Bool :=
+  docScheme v.scheme && v.scheme != Spec.b "https" && docOctet v.a && docOctet v.b && docOctet v.c && docOctet v.d
+  && docPortOK v.port && !v.isDefaultPort
+
+end DocV4
+end Spec
+end Cors
+
+namespace Cors
+namespace Spec
+
+/-- A documented pattern whose host is a bracketed IPv6 literal.  Whether `lit` is an RFC 5952
+canonical, zone-free, non-IPv4-mapped address is the verdict of `net/netip` (an oracle of the
+model); the grammar only fixes the bytes around it. -/
+structure DocV6 where
+  scheme : Bytes
+  lit : Bytes
+  port : DocPort
+
+namespace DocV6
+
+def portString (v : DocV6) : Bytes :=
+  match v.port with
+  | .absent => []
+  | .num ds => 58 :: ds
+  | .any => [58, 42]
+
+def render (v : DocV6) : Bytes := v.scheme ++ Spec.b "://[" ++ v.lit ++ Spec.b "]" ++ v.portString
+
+def isDefaultPort (v : DocV6) : Bool :=
+  match v.port with
+  | .num ds => v.scheme == Spec.b "http" && portValue ds == 80
+  | _ => false
+
+/-- The lexical side conditions: documented scheme other than `https`, at least two bytes between
+the brackets, none of them `]`, `.` or `%` before the first colon, documented port. -/
+def ok (v : DocV6) : Bool :=
+  docScheme v.scheme && v.scheme != Spec.b "https" && decide (2 ≤ v.lit.length) && !v.lit.contains 93
+  && docPortOK v.port && !v.isDefaultPort
+
+end DocV6
+end Spec
+end Cors
